@@ -856,8 +856,17 @@ def rule_domain(ctx, mod, fn, D, CD):
     cw = mod.func('cell_width')
     cp = au.params(cw)
     okc = has(f'_c_ = {cp[0]} / {cp[1]}', cw) and (
-        has(f'_c_ = np.clip(_c_, *{cp[2]})', cw) or
-        has(f'_c_ = np.clip(_c_, {cp[2]}[0], {cp[2]}[1])', cw))
+        has(f'np.clip(_c_, *{cp[2]})', cw) or
+        has(f'np.clip(_c_, {cp[2]}[0], {cp[2]}[1])', cw))
+    if okc:
+        # the clipped value is what is returned when two limits are given
+        cl = [c for c in au.calls(cw, 'np.clip')]
+        st_ = au.enclosing_stmt(cl[0])
+        okc = isinstance(st_, ast.Return) or (
+            isinstance(st_, ast.Assign) and any(
+                isinstance(r_, ast.Return) and r_.value is not None and
+                ast.unparse(r_.value) == ast.unparse(st_.targets[0])
+                for r_ in ast.walk(cw)))
     ctx.check('C16.G5.formulas', 'cell width = skin depth / pps, clipped to '
               'the limits', okc, 'cell_width() is not delta/pps restricted '
               'to [min, max]', ctx.where(mod, cw))
@@ -1029,7 +1038,7 @@ def rule_numbers(ctx, mod):
     fn = mod.func('good_mg_cell_nr')
     ps = au.params(fn)
     ok = has(f'_l_ = _l_[_l_ <= {ps[1]}]', fn) and has(
-        f'_n_ = _l_[:, None] * 2 ** np.arange({ps[2]}, __)', fn) and any(
+        f'_l_[:, None] * 2 ** np.arange({ps[2]}, __)', fn) and any(
         same(f'_n_[_n_ <= {ps[0]}]', r.value) is not None
         for r in ast.walk(fn) if isinstance(r, ast.Return))
     lows = find('_l_ = np.array(_v_, dtype=__)', fn)
